@@ -10,6 +10,8 @@ from harness import lens_common as lc
 ID = "C07"
 LEAN_MODULES = ["HierArc.Props.C07"]
 TRANSLATE = ["tables"]
+# when the translator cannot follow a rewritten source, the last generated model is run against the implementation instead
+TRANSLATOR_FALLBACK = True
 RULE = ("random lens lists (0-7 lenses, all constructible likelihood types mixed, per-lens IFU flag, LOS assignment, "
         "kinematic scaling over a_ani and/or gamma_pl, per-lens overrides of global settings), random global-model "
         "dictionaries (whitelisted and non-whitelisted keys), sharp hyper-parameters; checks: sum of single-lens objects, "
